@@ -51,6 +51,7 @@ structure Pipe where
   name : String
   dflt : Option Nat
   stages : List Nat
+  /-- the block carries a property only a graphics pipeline may have (`gs<k>`; `gb<k>` = blend state blocks only) -/
   gstate : Bool
 
 def splitList (s : String) (sep : String) : List String := if s.isEmpty then [] else s.splitOn sep
